@@ -962,6 +962,16 @@ func c16ExecK(in []string) []string {
 		_ = c16Call(func() error { return consumer.Consume(bytes.NewReader(text), &warm) })
 	}
 	res := c16Call(func() error { return consumer.Consume(reader, data) })
+	if bits>>22%2 == 1 {
+		// ... and it goes on serving: what this call delivered must not change when the same codec delivers
+		// another input into destinations of the buffered kinds afterwards
+		later := bytes.Repeat([]byte("zzzzz,99999,\"q,q\"\n"), 1+len(text)/16)
+		var lb []byte
+		var ls string
+		_ = c16Call(func() error { return consumer.Consume(bytes.NewReader(later), &lb) })
+		_ = c16Call(func() error { return consumer.Consume(bytes.NewReader(later), &ls) })
+		_ = c16Call(func() error { return runtime.CSVConsumer().Consume(bytes.NewReader(later), &lb) })
+	}
 
 	sinkF, reparse, recsF, alias := "*", "*", "*", 0
 	l, c := 0, 0
